@@ -48,7 +48,7 @@ fn split_out<C: Ciphersuite>(
 }
 
 pub fn exec<C: RandomizedCiphersuite>(op: &str, a: &A) -> Option<String> {
-    if matches!(op, "wipe" | "dropscan" | "debug" | "debugfields") {
+    if matches!(op, "wipe" | "dropscan" | "consumescan" | "debug" | "debugfields") {
         return crate::secrets::exec_secrets::<C>(op, a);
     }
     if matches!(op, "ser" | "de" | "json_ser" | "json_de" | "prim" | "resume") {
